@@ -600,14 +600,25 @@ structure World where
   roots : List (Option Val) := []          -- inputs and results, in creation order
   deriving Repr
 
+def Dflt.write (i : Nat) (f : Kind → List String → List Val → Option (List String × List Val)) : Dflt → Dflt
+  | .val d => .val (d.write i f)
+  | .shared d => .shared (d.write i f)
+  | x => x
+
+def Field.write (i : Nat) (f : Kind → List String → List Val → Option (List String × List Val)) (fl : Field) : Field :=
+  { fl with dflt := fl.dflt.write i f }
+
+def Decl.write (i : Nat) (f : Kind → List String → List Val → Option (List String × List Val)) (d : Decl) : Decl :=
+  { d with fields := d.fields.map (Field.write i f) }
+
+/-- an in-place write to object `i` shows wherever the object is reachable from: live roots and the
+declared default objects alike -/
 def World.writeAll (w : World) (i : Nat) (f : Kind → List String → List Val → Option (List String × List Val)) : World :=
-  { w with
-    roots := w.roots.map (fun r => r.map (Val.write i f)),
-    env := w.env.map (fun d => { d with fields := d.fields.map (fun fl =>
-      { fl with dflt := match fl.dflt with
-          | .val d => .val (d.write i f)
-          | .shared d => .shared (d.write i f)
-          | x => x }) }) }
+  { w with roots := w.roots.map (fun r => r.map (Val.write i f)), env := w.env.map (Decl.write i f) }
+
+def World.rootVals (w : World) : List Val := w.roots.filterMap id
+/-- identities of the mutable objects reachable from the live roots -/
+def World.rootIds (w : World) : List Nat := mutIdsL w.rootVals
 
 inductive Op where
   /-- a parse; the caller first builds `input` (a dict), allocating `bump` new objects for it -/
